@@ -10,6 +10,7 @@ G0..G3 are ghost lane sums mod 256, T0..T2 ghost counts (mod 256) of carries bet
 N_OF = '(len != -1 ? (unsigned long)len : sz - (unsigned long)offset)'
 
 PRELUDE = r'''
+#define VACUITY_PROBE() __CPROVER_assert(0, "vacuity-probe")
 /* ---- ghost state of K-chk ---- */
 unsigned long gi_out;        /* published at return: number of bytes the spec summed */
 unsigned gsum_out;           /* published at return: their sum mod 256 */
@@ -86,6 +87,7 @@ void h_chk(void)
 {
   const char *from; unsigned long sz; unsigned offset; int len;
   calc_chksum((char*)from, sz, offset, len);
+  VACUITY_PROBE();
 }
 ''',
     proofs=[
@@ -93,6 +95,6 @@ void h_chk(void)
              solvers=['cadical', 'z3'], timeout=dict(quick=120, thorough=300),
              # the 8-bit adder-tree equality gsum == G0+G1+G2+G3 is AC-normalised by z3 at once; SAT does not finish
              solver_hints=[(r'loop_invariant_step .*gsum == \(G0', ['z3'])],
-             property='C07'),
+             properties=['C07'], floor=16),
     ],
 )
